@@ -47,6 +47,33 @@ pub fn lookup(id: &str) -> Option<PropFn> {
     })
 }
 
+/// Byte-level entries (libFuzzer targets, thorough tier) of the properties whose domain is a byte string.
+pub fn fuzz_bytes(id: &str) -> Option<crate::engine::FuzzFn> {
+    Some(match id {
+        "C18" => c18::fuzz_bytes,
+        "C19" => c19::fuzz_bytes,
+        _ => return None,
+    })
+}
+
+/// Number of decoders / conversions behind the selector byte of a property's byte-level entry.
+pub fn fuzz_subs(id: &str) -> usize {
+    match id {
+        "C18" => 3,
+        "C19" => 11,
+        _ => 1,
+    }
+}
+
+/// Starting corpora for the libFuzzer targets.
+pub fn fuzz_seed_corpus(id: &str) -> Vec<Vec<u8>> {
+    match id {
+        "C18" => c18::fuzz_seed_corpus(),
+        "C19" => c19::fuzz_seed_corpus(),
+        _ => Vec::new(),
+    }
+}
+
 /// SHA2-256 raw-codec CIDv1 of `data` (shared by C19/C20 generators).
 pub fn c20_cid(data: &[u8]) -> cid::Cid {
     use sha2::Digest;
